@@ -1,7 +1,7 @@
 (* C11 proofs: the statements used by Props/C11.v *)
 From Coq Require Import NArith ZArith List Bool Lia Permutation Arith.
 From LV Require Import Model.C11 Model.C11Spec Proofs.C11Base Proofs.C11Join Proofs.C11Add Proofs.C11Sort
-  Proofs.C11Fuel Proofs.C11Run Proofs.C11Find Proofs.C11Sys.
+  Proofs.C11Fuel Proofs.C11Run Proofs.C11Find Proofs.C11Sys Proofs.C11More.
 Import ListNotations.
 Local Open Scope N_scope.
 
@@ -123,7 +123,37 @@ Lemma sys_wellformed own sops :
   own < M -> Forall sop_valid sops ->
   chain 0 (s_tab (sys_run own sops)) M /\ Forall (bucket_ok own) (s_tab (sys_run own sops)) /\
   NoDup (map pid (contacts (s_tab (sys_run own sops)))) /\ NoDup (map pkey (contacts (s_tab (sys_run own sops)))).
-Proof. intros Ho V. destruct (pm_refines own sops V) as (ops & Vo & ->). apply wellformed; assumption. Qed.
+Proof. intros Ho V. destruct (pm_refines own sops V) as (ops & Vo & -> & _). apply wellformed; assumption. Qed.
+
+(* reached only through the protocol, the table never keeps an empty bucket among several: a failed local send of the
+   probe no longer leaves add_peer as an exception *)
+Lemma sys_no_empty_bucket own sops :
+  own < M -> Forall sop_valid sops -> Forall sop_proto sops ->
+  (length (s_tab (sys_run own sops)) <= 1)%nat \/ Forall (fun b => bpeers b <> []) (s_tab (sys_run own sops)).
+Proof.
+  intros Ho V P. destruct (pm_refines own sops V) as (ops & Vo & -> & NF). apply no_empty_bucket; auto.
+Qed.
+
+(* a contact handed to KademliaProtocol.add_peer is still queued or has been offered to the table *)
+Lemma reported_never_lost own sops p :
+  pid p <> own -> In (SReport p) sops ->
+  In p (s_pending (sys_run own sops)) \/ exists e, In (Add p e) (compile own sys_init sops).
+Proof. intros Np H. unfold sys_run. apply offered_or_pending; [exact Np | right; exact H]. Qed.
+
+(* ... and when routing_table_task pops it while it is closer than the K-th closest known contact, it is admitted *)
+Lemma queued_closer_admitted own sops p pr w :
+  own < M -> Forall sop_valid sops -> pid p < M ->
+  In p (s_pending (sys_run own sops)) ->
+  (at_least_as_close own (s_tab (sys_run own sops)) p < K)%nat ->
+  In p (contacts (s_tab (fst (sys_step true own (sys_run own sops) (SDrainPick p pr w))))).
+Proof.
+  intros Ho V Hp Pend Cn. rewrite sys_step_tab. cbn [table_op].
+  assert (E : existsb (peer_eqb p) (s_pending (sys_run own sops)) = true).
+  { apply existsb_exists. exists p. split; [exact Pend | apply peer_eqb_refl]. }
+  rewrite E. destruct (pm_refines own sops V) as (ops & Vo & Et & _). rewrite Et in *.
+  destruct (closer_admitted own ops p (env_of_pm (s_pm (sys_run own sops)) (s_now (sys_run own sops)) (proto_probe pr))
+              Ho Vo Hp Cn) as (_ & _ & H). exact H.
+Qed.
 
 Lemma rpc_exact own ops key requester :
   own < M -> Forall op_valid ops ->
